@@ -280,6 +280,35 @@ Definition c02_trace_ok (evs : list ev) : bool :=
   | None => false
   end.
 
+(* ---------------------------------------------------------------- Part 5b: the stream-id sentence on the map alone *)
+(* The second sentence of the property on an observed operation sequence of the handler map, for
+   ANY sequence -- request ids and tokens may repeat (where [sm_check] is not applicable): [st] =
+   the ids handed out and not yet looked up (= answered by the peer).  An id handed out is below
+   32768 and not outstanding; a refusal needs all 32768 ids outstanding; the assert never fires. *)
+Definition ids_check_step (st : list N) (o : op) (r : op_res) : option (list N) :=
+  match o, r with
+  | OpAlloc _ _, RAlloc (AllocOk sid) _ =>
+      if (sid <? nids) && negb (smem sid st) then Some (sid :: st) else None
+  | OpAlloc _ _, RAlloc AllocFull _ =>
+      if forall_below nids (fun j => smem j st) then Some st else None
+  | OpLookup sid, RLookup _ => Some (srem sid st)
+  | OpOrphan _, RUnit => Some st
+  | OpProbe _, RProbe _ => Some st
+  | _, _ => None
+  end.
+
+Fixpoint ids_check_from (st : list N) (ops : list op) (rs : list op_res) : bool :=
+  match ops, rs with
+  | [], [] => true
+  | o :: ops', r :: rs' =>
+      match ids_check_step st o r with
+      | Some st' => ids_check_from st' ops' rs'
+      | None => false
+      end
+  | _, _ => false
+  end.
+Definition ids_check (ops : list op) (rs : list op_res) : bool := ids_check_from [] ops rs.
+
 (* ---------------------------------------------------------------- Part 6: the frame reader on a stream *)
 (* read_response_frame called again and again on what the peer sent: each call consumes exactly
    9 + `length` bytes.  [parse_frame] is C10's model of read_response_frame. *)
